@@ -295,6 +295,8 @@ func copyOptions(b *gen.Built, cs c02Case) gen.Options {
 		} else {
 			opts.Codec = "snappy"
 		}
+	case 5:
+		// second stage of copy 5: the options of the generated case
 	case 3, 4:
 		// options drawn independently of the source's: same or other page version, codec,
 		// page buffer, dictionary limit, default encoding, statistics, bloom filters
